@@ -1040,7 +1040,10 @@ def run(tier, seed, model_ok, translator, search=False):
             nontrivial = any(b["ty"] == "DIRECTIVE" and b["name"] == "include"
                              for f in case["files"] for s in f["sheets"] for b in s["truth"]) \
                 or ("D", "") in [tuple(t) for t in case["root_targets"]]
-            out.case(case if idx % 97 == 0 else {"index": idx}, nontrivial=False)
+            out.evaluations += 1
+            if (len(out.samples) == 0 and case["gen"].get("n") == 3 and len(case["gen"]["graph"]) >= 4) or \
+                    (len(out.samples) == 1 and "random" in case["gen"] and len(case["files"]) >= 3):
+                out.samples.append(case)
             if nontrivial:
                 out.nontrivial.add(hash(repr(case["files"]) + repr(case["roots"])))
             classify(case, impl, out)
@@ -1058,7 +1061,6 @@ def run(tier, seed, model_ok, translator, search=False):
                                                  else ans["status"]["exc"]))
     finally:
         shutil.rmtree(scratch, ignore_errors=True)
-    out.samples = [s for s in out.samples if "files" in s][:2] or out.samples[:2]
     return out
 
 
